@@ -9,7 +9,7 @@
              C17_convex_between, C17_bilinear_value_between, C17_bilinear_integer_points
   resample : C17_resample_loop, C17_resize_identity, C17_resize_same_size
   summary  : C17_bilinear_sampler (outside iff, access, surrounding, convex, at most four), C17_samplers_inside_domain, C17_samplers_far_outside,
-             C17_trunc_between, C17_bilinear_at_most_four
+             C17_trunc_between, C17_round_between, C17_round_int (the cast of fix 056e54b), C17_bilinear_at_most_four
   matrix   : C17_matrix_assoc, C17_matrix_one, C17_matrix_apply_mul, C17_matrix_inverse, C17_matrix_maps_back,
              C17_translate_scale_compose, C17_rotate_compose   (any field; cos/sin enter as an opaque pair)
   Floating point: every theorem is about exact arithmetic (Rat / an arbitrary field); the code's IEEE operation
@@ -275,17 +275,56 @@ theorem C17_trunc_between (q : Rat) (lo hi : Int) (h1 : (lo : Rat) ≤ q) (h2 : 
     · by_contra hc; have : (-n) / d ≤ -hi - 1 := by omega
       nlinarith
 
+private theorem trunc_lt (q : Rat) (H : Int) (h0 : 0 ≤ q) (h : q < (H : Rat)) : truncQ q < H := by
+  unfold truncQ
+  have hden : (0 : Int) < (q.den : Int) := by exact_mod_cast q.den_pos
+  have hdq : (0 : Rat) < (q.den : Rat) := by exact_mod_cast q.den_pos
+  have hq : q = (q.num : Rat) / (q.den : Rat) := (Rat.num_div_den q).symm
+  have hn : 0 ≤ q.num := Rat.num_nonneg.mpr h0
+  have e : q.num < H * (q.den : Int) := by
+    have : (q.num : Rat) < (H : Rat) * (q.den : Rat) := by rw [hq] at h; rwa [div_lt_iff₀ hdq] at h
+    exact_mod_cast this
+  rw [Int.tdiv_eq_ediv_of_nonneg hn]
+  exact Int.ediv_lt_of_lt_mul hden e
+
+private theorem truncQ_neg (q : Rat) : truncQ (-q) = -truncQ q := by
+  unfold truncQ; simp [Int.neg_tdiv]
+
+private theorem lt_trunc (q : Rat) (L : Int) (h0 : q ≤ 0) (h : (L : Rat) < q) : L < truncQ q := by
+  have := trunc_lt (-q) (-L) (by linarith) (by push_cast; linarith)
+  rw [truncQ_neg] at this; omega
+
+/-- the cast back to an integral channel since fix 056e54b (`src < 0 ? src - 0.5 : src + 0.5`, then truncation: round to
+    nearest, halves away from zero) keeps the value between the same integer bounds; with `C17_bilinear_value_between`
+    the sampled value lies within [min, max] of the pixels read -/
+theorem C17_round_between (q : Rat) (lo hi : Int) (h1 : (lo : Rat) ≤ q) (h2 : q ≤ (hi : Rat)) :
+    lo ≤ roundQ q ∧ roundQ q ≤ hi := by
+  unfold roundQ
+  by_cases hq : q < 0
+  · simp only [hq, if_true]
+    constructor
+    · have := lt_trunc (q - 1 / 2) (lo - 1) (by linarith) (by push_cast; linarith); omega
+    · exact (C17_trunc_between (q - 1 / 2) (lo - 1) hi (by push_cast; linarith) (by linarith)).2
+  · simp only [hq, if_false]
+    have hq0 : 0 ≤ q := not_lt.mp hq
+    constructor
+    · exact (C17_trunc_between (q + 1 / 2) lo (hi + 1) (by linarith) (by push_cast; linarith)).1
+    · have := trunc_lt (q + 1 / 2) (hi + 1) (by linarith) (by push_cast; linarith); omega
+
+/-- an integer is its own rounding -/
+theorem C17_round_int (n : Int) : roundQ (n : Rat) = n := by
+  have := C17_round_between (n : Rat) n n (le_refl _) (le_refl _); omega
+
 /-- at integer coordinates inside the view the bilinear sampler returns the source pixel itself -/
 theorem C17_bilinear_integer_points (w h : Int) (src : Int → Int → Int) (x y D : Int) (hD : 0 < D)
     (hx : 0 ≤ x ∧ x < w) (hy : 0 ≤ y ∧ y < h) :
-    ∃ taps, bilinearQ w h src (x * D) (y * D) D = some (taps, (src x y : Rat)) ∧ truncQ (src x y : Rat) = src x y := by
+    ∃ taps, bilinearQ w h src (x * D) (y * D) D = some (taps, (src x y : Rat)) ∧ roundQ (src x y : Rat) = src x y := by
   have ex : ifloorQ (x * D) D = x := by unfold ifloorQ; exact Int.mul_ediv_cancel x (Int.ne_of_gt hD)
   have ey : ifloorQ (y * D) D = y := by unfold ifloorQ; exact Int.mul_ediv_cancel y (Int.ne_of_gt hD)
   have ho : bilinearOutside w h x y = false := by
     unfold bilinearOutside
     simp only [Bool.or_eq_false_iff, decide_eq_false_iff_not]; omega
-  have htr : truncQ (src x y : Rat) = src x y := by
-    unfold truncQ; simp
+  have htr : roundQ (src x y : Rat) = src x y := C17_round_int _
   unfold bilinearQ
   simp only [ex, ey, ho, Bool.false_eq_true, if_false, sub_self, Int.cast_zero, zero_div]
   refine ⟨bilinearTaps w h x y 0 0, ?_, htr⟩
